@@ -133,7 +133,8 @@ def run_history(DESC, hist, tmp, rnd, pool, detail=None):
     for f in glob.glob(p + "*"):
         os.remove(f)
     w = SqliteWriter(p, batch_size=batch)
-    obs = sqlite3.connect(p)
+    obs = sqlite3.connect(p, timeout=0.5)
+    last_seen = ({t: [] for t in TBL}, {t: [] for t in TBL})
     tr = [{"op": "open", "batch": batch}]
     written = {t: [] for t in TBL}
     rid = 0
@@ -166,7 +167,11 @@ def run_history(DESC, hist, tmp, rnd, pool, detail=None):
                 closed = True
         except Exception as e:
             ev["exc"] = type(e).__name__
-        ev["ccols"], ev["crows"] = observe_db(obs)
+        try:
+            last_seen = observe_db(obs)
+        except sqlite3.OperationalError:
+            ev["observer_locked_out"] = True        # the writer holds the file: another connection sees nothing new (and nothing less)
+        ev["ccols"], ev["crows"] = last_seen
         tr.append(ev)
     obs.close()
     if not closed:
